@@ -169,6 +169,8 @@ INJECT = [
     ("native/partition_segment.rs", "src/disk_store/partition_segment.rs", "verif_nat_partition_segment", ("native",)),
     ("native/storage.rs", "src/disk_store/storage.rs", "verif_nat_storage", ("native",)),
     ("native/query_task.rs", "src/engine/execution/query_task.rs", "verif_nat_query_task", ("native",)),
+    ("native/mem_partition.rs", "src/mem_store/partition.rs", "verif_nat_mem_partition", ("native",)),
+    ("native/table.rs", "src/mem_store/table.rs", "verif_nat_table", ("native",)),
 ]
 
 
